@@ -187,6 +187,10 @@ class SMUserList(UserList, ABC):
             else:
                 return False
 
+        elif isinstance(arg, (list, tuple)) and len(arg) == 0:
+            # an empty sequence
+            self.data = []
+
         elif isinstance(arg, (list, tuple)):
             # it's a list of things
             if isinstance(arg[0], np.ndarray):
@@ -290,16 +294,8 @@ class SMUserList(UserList, ABC):
         """
 
         if isinstance(i, slice):
-            if i.stop is None:
-                # stop not given
-                end = len(self)
-            elif i.stop < 0:
-                # stop is negative, -
-                end = i.stop + len(self) + 1
-            else:
-                # stop is positive, use it directly
-                end = i.stop
-            return self.__class__([self.data[k] for k in range(i.start or 0, end, i.step or 1)])
+            # same semantics as list slicing (negative indices, out-of-range bounds, any step)
+            return self.__class__([self.data[k] for k in range(*i.indices(len(self)))])
         else:
             return self.__class__(self.data[i])
         
